@@ -102,6 +102,23 @@ func (st *reqState) enter(ctx context.Context, spec connect.Spec) {
 
 type countingInterceptor struct{}
 
+// passThrough is an interceptor that does nothing: it only makes the chain longer.
+type passThrough struct{}
+
+func (passThrough) WrapUnary(next connect.UnaryFunc) connect.UnaryFunc { return next }
+func (passThrough) WrapStreamingClient(next connect.StreamingClientFunc) connect.StreamingClientFunc {
+	return next
+}
+func (passThrough) WrapStreamingHandler(next connect.StreamingHandlerFunc) connect.StreamingHandlerFunc {
+	return next
+}
+
+var reqSharedOpts = []connect.HandlerOption{
+	connect.WithInterceptors(countingInterceptor{}),
+	connect.WithInterceptors(passThrough{}),
+	connect.WithCompression("zstd-verif", nil, nil), connect.WithCompression("", newGzipD, newGzipC),
+}
+
 func (countingInterceptor) WrapUnary(next connect.UnaryFunc) connect.UnaryFunc {
 	return func(ctx context.Context, r connect.AnyRequest) (connect.AnyResponse, error) {
 		if st := reqStateOf(ctx); st != nil {
@@ -137,8 +154,9 @@ func reqHandler(s *reqScenario) *connect.Handler {
 	}
 	// two options documented as no-ops ride along: a compression registered with nil constructors (under the name
 	// the "unknown" scenarios send) and one with an empty name
-	opts := []connect.HandlerOption{connect.WithInterceptors(countingInterceptor{}),
-		connect.WithCompression("zstd-verif", nil, nil), connect.WithCompression("", newGzipD, newGzipC)}
+	// (option VALUES are shared by every handler built here, as in generated New<Service>Handler constructors: two
+	//  separate interceptor options, the second one contributing nothing but being chained all the same)
+	opts := append([]connect.HandlerOption{}, reqSharedOpts...)
 	for _, c := range s.Codecs {
 		if c == "verifc" {
 			opts = append(opts, connect.WithCodec(verifCodec{}))
